@@ -192,6 +192,14 @@ def holder_history_batch(prop, work, res, quick):
     defs = U.leaf_structs()
     defs["HReq"] = struct([field(3, "required", T("i32")), field(5, "default", T("string"))], unk=True)
     defs["HReqN"] = struct([field(1, "default", L(ST("HReq", True))), field(2, "default", M(T("string"), ST("HReq", False))), field(4, "default", T("i32"))], unk=True)
+    # an optional by-value struct with a holder inside a type with declared defaults: its known fields may all be at their
+    # defaults while its holder is not empty - it is still written
+    defs["HIn"] = struct([field(1, "default", T("i32")), field(2, "default", T("string"))], unk=True)
+    hp = struct([field(1, "optional", ST("HIn", False)), field(2, "optional", T("i32")), field(3, "default", ST("HIn", False)), field(4, "optional", ST("HIn", True))], init=True)
+    hp["fields"][1]["def"] = [0, 0, 0, 9]
+    defs["HPar"] = hp
+    defs["WHIn"] = struct([field(1, "default", T("i32")), field(2, "default", T("string")), field(7, "default", T("i64")), field(8, "optional", T("string", True))])
+    defs["WHPar"] = struct([field(1, "optional", ST("WHIn", False)), field(2, "optional", T("i32", True)), field(3, "default", ST("WHIn", False)), field(4, "optional", ST("WHIn", True))])
     defs["WH"] = struct([field(1, "default", T("string")), field(2, "default", T("i64")), field(3, "optional", T("i32", True)), field(5, "default", T("string")),
                          field(7, "default", L(T("i16"))), field(9, "optional", T("string", True))])
     defs["WHN"] = struct([field(1, "default", L(ST("WH", True))), field(2, "default", M(T("string"), ST("WH", False))), field(4, "default", T("i32")),
@@ -232,6 +240,19 @@ def holder_history_batch(prop, work, res, quick):
         if steps:
             sid = "C11-failfirst-%s-%d" % (top, len(scen))
             scen.append({"sid": sid, "prop": prop, "vals": [], "steps": steps, "tags": ["holder-after-failure"], "dkey": sid})
+    hin = lambda a, b, c: {"f": {"1": U.be(a, 4), "2": list(b), "7": U.be(c, 8), "8": {"p": 1, "v": list(b"u%d" % c)} if c % 2 else {"p": 0}}, "unk": []}
+    pcases = []
+    for pi, (x, y, z) in enumerate(((hin(0, b"", 5), hin(0, b"", 6), hin(0, b"", 7)), (hin(1, b"a", 5), hin(0, b"", 0), hin(0, b"", 9)), (hin(0, b"", 0), hin(2, b"", 3), hin(0, b"z", 1)))):
+        pcases.append({"cid": "hpar|%d" % pi, "w": "WHPar", "val": {"f": {"1": x, "2": {"p": 0}, "3": y, "4": {"p": 1, "v": z}}, "unk": []}, "ord": ORDS[pi % 4], "trail": [], "mut": "none"})
+    pmsgs, stp = vlib.gen_messages(work, defs_path, pcases)
+    res.tlc_states += stp.get("distinct", 0)
+    res.tlc_transitions += stp.get("generated", 0)
+    for c in pcases:
+        steps = [{"op": "decode", "ty": "HPar", "in": pmsgs[c["cid"]][0], "dest": "fresh"}, {"op": "size", "ty": "HPar", "obj": 0},
+                 {"op": "encode", "ty": "HPar", "obj": 0, "buf": {"mode": "rel", "n": 0, "extra": 0}},
+                 {"op": "decode", "ty": "WHPar", "from": 2, "dest": "fresh"}]
+        sid = "C11-" + c["cid"]
+        scen.append({"sid": sid, "prop": prop, "vals": [], "steps": steps, "tags": ["holder-in-defaulted-parent"], "dkey": sid})
     for top, g1, g2 in (("HReq", "good", "good2"), ("HReq", "good2", "good"), ("HReqN", "ngood", "ngood")):
         for o1, o2 in (("asc", "desc"), ("rot", "asc")):
             steps = [{"op": "decode", "ty": top, "in": msgs["%s|%s" % (g1, o1)][0], "dest": "fresh"},
